@@ -220,6 +220,51 @@ pub fn explore<O>(
     stats
 }
 
+/// Deviation-bounded exploration: every execution in which at most `max_dev` choice points take a
+/// non-default answer (default = alternative 0), all others taking alternative 0.  Complete below the
+/// bound, for scenarios whose full tree is far too large (long genomes); used for support and per-leaf
+/// oracles only -- the leaf weights do not sum to 1.
+pub fn explore_bounded<O>(
+    mut scenario: impl FnMut(&mut Env) -> O,
+    mut visit: impl FnMut(&[Choice], O),
+    max_dev: usize,
+    cap: u64,
+) -> ExploreStats {
+    let mut stats = ExploreStats::default();
+    let started = std::time::Instant::now();
+    let budget = explore_wall_budget();
+    let mut prefix: Vec<Choice> = Vec::new();
+    loop {
+        let mut env = Env::new(prefix.clone());
+        env.horizon = usize::MAX;
+        let obs = scenario(&mut env);
+        if env.diverged.is_some() && stats.diverged.is_none() {
+            stats.diverged = env.diverged.clone();
+        }
+        stats.leaves += 1;
+        stats.choice_points += env.trace.len() as u64;
+        stats.max_depth = stats.max_depth.max(env.trace.len());
+        visit(&env.trace, obs);
+        let mut t = env.trace;
+        loop {
+            let Some(last) = t.last() else {
+                return stats;
+            };
+            let nz_before = t[..t.len() - 1].iter().filter(|c| c.pick != 0).count();
+            if last.pick + 1 < last.width && (last.pick != 0 || nz_before < max_dev) {
+                break;
+            }
+            t.pop();
+        }
+        if stats.leaves >= cap || (stats.leaves % 1024 == 0 && started.elapsed() > budget) {
+            stats.capped = true;
+            return stats;
+        }
+        t.last_mut().unwrap().pick += 1;
+        prefix = t;
+    }
+}
+
 /// Re-run one recorded leaf.
 pub fn replay<O>(mut scenario: impl FnMut(&mut Env) -> O, trace: &[Choice]) -> (O, Env) {
     let mut env = Env::new(trace.to_vec());
